@@ -4,7 +4,8 @@ the `'['` and `'-'` arms of `lex`) and of the escape check of `SyntaxErrorChecke
 (`check_normal_string_error`, crates/emmylua_code_analysis/src/diagnostic/checker/syntax_error.rs)
 
 All functions work on the chars of the text starting at the token. Results are (chars consumed, error).
-The lexer does not gate any string syntax by language level; escapes are validated later by the checker.
+The lexer gates only the `z` escape by language level (`zskip` = level ≠ Lua 5.1); all other escapes are
+validated later by the checker, per level (`EscCfg`).
 -/
 namespace StrLex
 
@@ -25,9 +26,10 @@ inductive SState
   | LR     -- just after an escaped `\r` (a directly following `\n` belongs to the same line break)
   deriving DecidableEq, Repr
 
-/-- one char of the loop: the next position, or `none` when the loop breaks *before* this char -/
-def sstep (q : Char) : SState → Char → Option SState
-  | .B, c => some (if c == 'z' then .Z else if c == '\n' then .LN else if c == '\r' then .LR else .N)
+/-- one char of the loop: the next position, or `none` when the loop breaks *before* this char.
+`zskip`: the level has the `\\z` escape (every level but Lua 5.1). -/
+def sstep (zskip : Bool) (q : Char) : SState → Char → Option SState
+  | .B, c => some (if zskip && c == 'z' then .Z else if c == '\n' then .LN else if c == '\r' then .LR else .N)
   | s, c =>
     if (s == .Z && isZws c) || (s == .LN && c == '\r') || (s == .LR && c == '\n') then
       some (if s == .Z then .Z else .N)
@@ -36,18 +38,18 @@ def sstep (q : Char) : SState → Char → Option SState
     else some .N
 
 /-- the loop: chars consumed and the rest at the point the loop breaks -/
-def srun (q : Char) : SState → List Char → Nat → Nat × List Char
+def srun (zskip : Bool) (q : Char) : SState → List Char → Nat → Nat × List Char
   | _, [], n => (n, [])
   | s, c :: rest, n =>
-    match sstep q s c with
-    | some s' => srun q s' rest (n + 1)
+    match sstep zskip q s c with
+    | some s' => srun zskip q s' rest (n + 1)
     | none => (n, c :: rest)
 
 /-- `lex` on a text starting with a quote `q` (`"` or `'`): token length in chars and "unfinished string" -/
-def lexShort : List Char → Option (Nat × Bool)
+def lexShort (zskip : Bool) : List Char → Option (Nat × Bool)
   | [] => none
   | q :: rest =>
-    let (n, r) := srun q .N rest 0
+    let (n, r) := srun zskip q .N rest 0
     match r with
     | c :: _ => if c == q then some (n + 2, false) else some (n + 1, true)
     | [] => some (n + 1, true)
@@ -130,21 +132,22 @@ def isWhitespace (c : Char) : Bool :=
   (9 ≤ n && n ≤ 13) || n == 32 || n == 0x85 || n == 0xA0 || n == 0x1680 || (0x2000 ≤ n && n ≤ 0x200A) ||
   n == 0x2028 || n == 0x2029 || n == 0x202F || n == 0x205F || n == 0x3000
 
-/-- the `\\u{XXX}` values Lua can encode: below 2^31 (`code_point > 0x7FFF_FFFF` is the error test) -/
-def isEncodable (n : Nat) : Bool := n ≤ 0x7FFFFFFF
-
-/-- `u32::from_str_radix(s, 16)` succeeds: optional `+`, at least one hex digit, value below 2^32 -/
-def parseHexU32 (s : List Char) : Option Nat :=
-  let ds := match s with | '+' :: r => r | _ => s
-  if !ds.isEmpty && ds.all isHexDigit && hexNum ds < 4294967296 then some (hexNum ds) else none
+/-- the escapes a language level has (reference manuals, "Lexical Conventions") -/
+structure EscCfg where
+  lua51 : Bool    -- Lua 5.1: only the simple escapes and decimal escapes; a backslash before any other char quotes it
+  uni : Bool      -- the `u{XXX}` escape exists (Lua 5.3 and later, LuaJIT)
+  maxU : Nat      -- its largest value (10FFFF in Lua 5.3 / LuaJIT, 2^31 - 1 from Lua 5.4)
+  deriving DecidableEq, Repr
 
 def simpleEscape (c : Char) : Bool :=
   c == 'a' || c == 'b' || c == 'f' || c == 'n' || c == 'r' || c == 't' || c == 'v' || c == '\\' || c == '\'' ||
   c == '"' || c == '\r' || c == '\n'
 
+def digitVal (c : Char) : Nat := c.toNat - '0'.toNat
+
 /-- the `while let Some(c) = chars.next()` loop of `check_normal_string_error` on the chars after the opening
 delimiter; `true` = an error is reported. Fuel = number of chars. -/
-def chk (delim : Char) : Nat → List Char → Bool
+def chk (cfg : EscCfg) (delim : Char) : Nat → List Char → Bool
   | 0, _ => false
   | _, [] => false
   | f + 1, c :: rest =>
@@ -152,40 +155,46 @@ def chk (delim : Char) : Nat → List Char → Bool
       match rest with
       | [] => false
       | e :: r =>
-        if simpleEscape e then chk delim f r
-        else if e == 'x' then
+        if simpleEscape e then chk cfg delim f r
+        else if e == 'x' && !cfg.lua51 then
           let hex := r.take 2
-          if hex.length == 2 && hex.all isHexDigit then chk delim f (r.drop 2) else true
-        else if e == 'u' then
+          if hex.length == 2 && hex.all isHexDigit then chk cfg delim f (r.drop 2) else true
+        else if e == 'u' && cfg.uni then
+          -- '{', one or more hex digits, '}', value at most `maxU`
           (match r with
-           | [] => false
+           | [] => true
            | b :: r2 =>
              if b == '{' then
-               let ds := r2.takeWhile (· != '}')
-               let r3 := (r2.dropWhile (· != '}')).drop 1
-               (match parseHexU32 ds with
-                | some cp => if isEncodable cp then chk delim f r3 else true
-                | none => chk delim f r3)
-             else chk delim f r2)
+               (match r2.dropWhile isHexDigit with
+                | [] => true
+                | cl :: r3 =>
+                  if cl == '}' && !(r2.takeWhile isHexDigit).isEmpty &&
+                      decide (hexNum (r2.takeWhile isHexDigit) ≤ cfg.maxU) then chk cfg delim f r3
+                  else true)
+             else true)
         else if isDigit e then
-          -- up to two more digits
+          -- up to two more digits; the value must not exceed 255
           (match r with
            | d1 :: r1 =>
              if isDigit d1 then
                (match r1 with
-                | d2 :: r2 => if isDigit d2 then chk delim f r2 else chk delim f r1
+                | d2 :: r2 =>
+                  if isDigit d2 then
+                    (if digitVal e * 100 + digitVal d1 * 10 + digitVal d2 ≤ 255 then chk cfg delim f r2 else true)
+                  else chk cfg delim f r1
                 | [] => false)
-             else chk delim f r
+             else chk cfg delim f r
            | [] => false)
-        else if e == 'z' then chk delim f (r.dropWhile isWhitespace)
-        else chk delim f r
+        else if e == 'z' && !cfg.lua51 then chk cfg delim f (r.dropWhile isWhitespace)
+        else if cfg.lua51 then chk cfg delim f r
+        else true
     else if c == delim then false
-    else chk delim f rest
+    else chk cfg delim f rest
 
-/-- `check_normal_string_error(token)`: tokens shorter than 2 bytes are not checked -/
-def checkString : List Char → Bool
+/-- `check_normal_string_error(token, level)`: tokens shorter than 2 bytes are not checked -/
+def checkString (cfg : EscCfg) : List Char → Bool
   | [] => false
   | [_] => false
-  | d :: rest => chk d rest.length rest
+  | d :: rest => chk cfg d rest.length rest
 
 end StrLex
